@@ -23,7 +23,9 @@ FLOAT_POOL = [0.5, 1.5, 2.0, -1.0, 2.5, 1.0, 3.25, 0.0]
 MIX_POOL = [1, 2.5, 3, 0.5, 2, -1.5, 4, 0]
 # float labels that differ in the last digits only (distinct arms all the same)
 FLOAT_CLOSE_POOL = [2499.99, 2500.0, 2500.01, 0.3, 0.1 + 0.2, 1e-9, 2e-9, 1.0000001]
-POOLS = {"int": INT_POOL, "str": STR_POOL, "float": FLOAT_POOL, "mix": MIX_POOL}
+# identifiers beyond 2**53 (snowflake-style ids): neighbours are one and the same double
+BIGINT_POOL = [2 ** 60 + 1, 2 ** 60 + 2, 2 ** 60 + 3, 2 ** 53 + 1, 2 ** 53 + 2, 2 ** 62 + 5, 2 ** 60 + 4]
+POOLS = {"bigint": BIGINT_POOL, "int": INT_POOL, "str": STR_POOL, "float": FLOAT_POOL, "mix": MIX_POOL}
 
 
 @st.composite
